@@ -307,3 +307,6 @@ mod tests {
         dbg!(&predictions.targets());
     }
 }
+
+#[cfg(linfa_verif)]
+pub mod verif_hooks_c20;
